@@ -194,6 +194,7 @@ def server_state(ex, env):
     ex.ghost['cnt_track'] = [c0]
     env['c0'] = VSym(c0, hint=('abs', 'RCtx'))
     ex.assume(c0 == Val.v_abs(z3.IntVal(smt.cls_code('RCtx')), Val.vakey(c0)))        # c0 ranges over child handles
+    F(ex, 'RCtx', VAbs('RCtx', Val.vakey(c0)), 'calls')       # the call counters exist from the start (C18.L2 compares them across an iteration)
     return self_v
 
 
